@@ -338,4 +338,8 @@ func c05R4(p *engine.Prog, r *engine.Report) {
 		}
 	}
 	r.Floor("C05-R4", 6, "subBalance sites + 5 EnvImp caches")
+	// ---------------- R5: nobody else pays — admission covers the full cost; a failed call leaves no buffer behind
+	totalCostNoBypassRule(p, r, "C05-R5")
+	envResetPrecedesRule(p, r, "C05-R5")
+	r.Floor("C05-R5", 2, "total cost + reset")
 }
